@@ -201,4 +201,15 @@ PROPS = {
                         "real parallelism of handlers is outside the model (thorough tier under -race)"],
         "trusted_base": ["testing/synctest; the scripted PacketConn; modelled, not verified: server4.Serve, server6.Serve"],
     },
+    "C13": {
+        "coq_files": BASE + ["V4/", "V6/", "Client/Lease.v", "Props/C13.v"],
+        "harness": "sync",
+        "rule": "scripted servers under synctest reacting to the client's transmissions: phase 1 (after DISCOVER / SOLICIT) and phase 2 (after REQUEST) each 0..5 replies drawn from OFFER / ACK / NAK "
+                "(ADVERTISE / REPLY) by servers 0 (no identifier), 1, 2, 3 with arbitrary addresses, other message types, undecodable datagrams, wrong transaction id, wrong hardware address, "
+                "BOOTREQUEST opcode, duplicates; client: nclient4.Request (DiscoverOffer + RequestFromOffer), Renew, Release, nclient6.RapidSolicit; the transmitted REQUEST (decoded), the "
+                "selected offer and the completing reply vs the composed model (decoder + filter + accessors + builders + selection) and vs an independent specification; "
+                "non-trivial = distinct scenario",
+        "assumptions": ["a datagram belongs to the phase during which it arrives; after the first valid OFFER the phase-1 script holds no routable ACK/NAK (their arrival relative to the REQUEST's registration is not scriptable)"],
+        "trusted_base": ["testing/synctest; scripted PacketConn; modelled, not verified: nclient4 Request/RequestFromOffer/Renew/Release, nclient6 RapidSolicit/Request"],
+    },
 }
